@@ -6,71 +6,71 @@ ALL = ["C%02d" % i for i in range(1, 21)]
 CHECKS = {
  "C11": dict(
    technique="TLA+ spec Decl.tla: every legal declaration (type, selector, ordered attribute list, entity decoration, documentation placement, dummy/local) and every call shape with a cursor is an initial state; the spec computes the equivalent declaration record and the active parameter; rendered declarations are hovered and calls are probed with signatureHelp, the parsed answers are compared with the spec state",
-   text="13k states: 8 types x 8 selectors x attribute lists of length <=2 from 12 attributes x 5 decorations x 5 doc placements x dummy/local (Legal validated with gfortran on a sample), and call shapes of <=3 arguments over plain/nested/string/keyword arguments; own documentation must appear on the entity and on no neighbour; procedure hover must list the dummy with the same declaration.",
+   text="13k states: 8 types x 8 selectors x attribute lists of length <=2 from 15 attributes (incl. VALUE, VOLATILE, ASYNCHRONOUS) x 7 decorations (values with top-level commas, with commas and '!' inside literals) x 7 doc placements x dummy/local (Legal validated with gfortran on a sample), and call shapes of <=3 arguments over plain/nested/string/keyword/comparison ('p2 == 0') arguments; own documentation must appear on the entity and on no neighbour; procedure hover must list the dummy with the same declaration.",
    note="Trusted: TLC, the hover normaliser (case, blanks, attribute order), renderer. Positions inside nested parentheses and doc blocks separated by a blank line are don't-care.",
    design="4/C11"),
  "C20": dict(
    technique="TLA+ spec Cycles.tla: shapes (relation kind x cycle length x tail) are initial states, the reference walker with a visited set is model-checked to take at most T+L steps and the walker without one is refuted; every shape is rendered to a workspace and, in a killable child process, indexed, diagnosed and queried with every positional request at every identifier",
-   text="7 relation kinds (USE, EXTENDS with overriding bindings, submodule ancestry, pointer =>, ASSOCIATE, procedure binding =>, INCLUDE) x cycle lengths 1..3 (quick) / 1..4 x tails 0..1: the child must finish within the wall-clock limit and no request may answer with an internal error.",
-   note="Trusted: TLC, shape renderer, child-process time limit (60 s per workspace of < 40 lines; typical < 1 s).",
+   text="12 relation kinds (USE plain and mixed with ONLY, EXTENDS with overriding bindings, submodule ancestry, pointer =>, ASSOCIATE, procedure binding =>, procedure pointers by => / by interface / mixed with data pointers, INCLUDE, #include) x cycle lengths 1..3 (quick) / 1..4 x tails 0..1 x main program outside the cycle present/absent x one or two include lines per file: the child must finish within the wall-clock limit and no request may answer with an internal error.",
+   note="Trusted: TLC, shape renderer, child process in its own process group under a 30 s limit per workspace of < 40 lines (typical < 1 s).",
    design="4/C20"),
  "C15": dict(
    technique="TLA+ spec InitIndex.tla (worker pool: dispatch/finish/merge in completion order, link phases after the last merge, and the open-one-at-a-time path): TLC proves confluence of the design over all interleavings for two dependency graphs and refutes the named deviation linkWhileMerging; the implementation is run in child processes over worker counts, permuted directory enumeration, hash seeds and every opening order, and the full query batteries are compared",
-   text="Three workspaces (type links; INCLUDE+EXTENDS; SUBMODULE + 3-level EXTENDS chain) x 12 (quick) / up to 120 configurations each: nthreads in {1,2,3,4,8,16}, permutations of the listing, PYTHONHASHSEED in {0,1,2}, start-up path vs opening one at a time.",
+   text="Four workspaces (type links; INCLUDE+EXTENDS; SUBMODULE + 3-level EXTENDS chain; a user module named like a bundled intrinsic module) x 12 (quick) / up to 120 configurations each: nthreads in {1,2,3,4,8,16}, permutations of the listing, PYTHONHASHSEED in {0,1,2}, start-up path vs opening one at a time.",
    note="Real Pool schedules are sampled, not enumerated (stated limit). Trusted: TLC, battery normalisation, the os.listdir/os.walk permutation installed in the child before fortls is imported.",
    design="4/C15"),
  "C17": dict(
-   technique="Preproc.tla carries an `effects` variable that no action changes (NoEffects model-checked); directive files simulated by TLC with host-language expressions as macro bodies and conditions, plus a slot catalogue (#if, #elif, #define+#if, #define+use, #include, pp_defs by file and by command line, function-like macro), are indexed and queried in a child process under a sys.addaudithook monitor, differentially against a benign control session",
+   technique="Preproc.tla carries an `effects` variable that no action changes (NoEffects model-checked); directive files simulated by TLC with host-language expressions as macro bodies and conditions, plus a slot catalogue (#if, #elif, #define+#if, #define+use, #include, pp_defs by file and by command line, function-like macro; two-step histories: the same directive text met with a harmless and then a hostile macro value in one file, in a second file, after an edit, after a header edit; the configuration file in YAML / Python / shell-metacharacter spellings under eight file names), are indexed and queried in a child process under a sys.addaudithook monitor, differentially against a benign control session",
    text="Every payload tries to create a canary; the recorded audit trace must contain no exec/compile-and-run, process, socket, import, write or delete event beyond the control's, and the canary must not exist.",
    note="Observation-based: no claim beyond the payload catalogue and the simulated files. Trusted: CPython audit events, the control-session subtraction.",
    design="4/C17"),
  "C19": dict(
    technique="TLA+ spec Config.tla: what the command line and the file say for up to two options and the kind of file (none, ok, five malformed kinds) form the initial state; Initialize computes the effective values by the reference rule; every state is bound to concrete option triples and a real server's attributes, messages and initialize answer are compared with the spec state",
-   text="24 documented options (flags, integers, strings, path sets, suffix sets, pp_defs JSON) x {absent, CLI, file, both with different values} x pairs x 7 file kinds; untouched options must stay at their defaults.",
+   text="24 documented options (flags, integers, strings, path sets, suffix sets, pp_defs JSON) x {absent, CLI, file, both with different values} x pairs x 7 file kinds x 6 file layouts (default names in search order, custom name, -c, with a conflicting default-named decoy file); untouched options must stay at their defaults; the indexed file set is compared as the effect of source_dirs (incl. the root itself).",
    note="Trusted: TLC, option table (values per option type), attribute normalisation. Flags cannot be set to false on the command line; those combinations are skipped. Wrong value types are a recorded known finding.",
    design="4/C19"),
  "C18": dict(
    technique="TLA+ spec Discovery.tla: every (directory tree, settings) pair is an initial state; the spec computes ExpectedIndexed from the property statement and TLC checks the staged computation (resolve globs, choose source dirs, list files) equals it; sampled pairs are built as real trees and a real server's workspace/symbol answer is compared with the spec state",
-   text="625 trees (4 directories x 5 suffix profiles incl. mixed-case and look-alike suffixes) x 192 settings (source_dirs unset/literal/recursive glob/name glob, excl_paths none/dir/dir/**/file, incl_suffixes, excl_suffixes, CLI or file): 1.5k sampled pairs in quick, 24k in thorough.",
+   text="3125 trees (root, sub, sub/deep, ex and the hidden directory sub/.hid x 5 suffix profiles incl. mixed-case and look-alike suffixes such as .INC next to a configured .inc) x 240 settings (source_dirs unset/literal/recursive glob/name glob/the root itself, excl_paths none/dir/dir/**/file, incl_suffixes, excl_suffixes, CLI or file): 1.5k sampled pairs in quick, 24k in thorough.",
    note="Trusted: TLC, tree builder. A file counts as indexed iff its module is returned by workspace/symbol.",
    design="4/C18"),
  "C10": dict(
-   technique="TLA+ spec Workspace.tla (sync events over three files with content variants; reference: index = fresh index in every quiescent state; two named deviations must be refuted by TLC); TLC-enumerated and simulated histories replayed against a long-lived server whose full query battery is compared, in every quiescent state, with a fresh server on a copy of the directory",
-   text="All histories of <=4 (quick) / <=5 (thorough) events over open/edit/save/close/create+open/delete+close/query plus simulated histories of 12; battery = documentSymbol, workspace/symbol, definition+hover at every identifier, completion at every %, references of every declaration, diagnostics.",
+   technique="TLA+ spec Workspace.tla (sync events over three files with content variants, bound to four worlds of file contents: type links, preprocessor state, module/submodule/binding links, INCLUDE grafts; reference: index = fresh index in every quiescent state; two named deviations must be refuted by TLC); TLC-enumerated and simulated histories replayed against a long-lived server whose full query battery is compared, in every quiescent state, with a fresh server on a copy of the directory",
+   text="All histories of <=4 (quick) / <=5 (thorough) events over open/edit/save/close/create+open/delete+close/query plus simulated histories of 12 and, for the preprocessor world, all 6-event histories over two files that edit both; battery = documentSymbol, workspace/symbol, definition+hover at every identifier, completion at every %, references of every declaration, diagnostics.",
    note="Trusted: TLC, battery normalisation (list order, path prefix). Quiescent = every open document saved since its last edit. New files are announced by didOpen.",
    design="4/C10"),
  "C05": dict(
    technique="TLA+ spec NameRes.tla: every standard-conforming universe (2 modules, program, internal procedure; declarations, default/explicit accessibility, USE with ONLY lists and renames, re-export) is an initial state for which TLC computes the binding of every reference; rendered to three files and go-to-definition at first/middle/last character of every reference is compared with the spec's binding",
    text="15k universes (2.5k sampled in quick, all in thorough) x every reference token x 3 cursor positions: declaration file/line and a range covering exactly the name; names that are accessible nowhere must not be answered with any declaration (in particular not a PRIVATE one).",
-   note="Trusted: TLC, renderer with token coordinates. Not modelled: INCLUDE, % chains/EXTENDS, generics. Three root-cause findings keyed on universe features are recorded as known findings.",
+   note="Trusted: TLC, renderer with token coordinates. % chains / EXTENDS are decided on TypeRes.tla, diamond USE graphs on UseGraph.tla. Not modelled: INCLUDE in NameRes, generics, parent-component access. Three root-cause findings keyed on universe features are recorded as known findings.",
    design="4/C05"),
  "C06": dict(
-   technique="NameRes.tla universes with reference statements drawn from templates (adjacent occurrences 'n=n+1', occurrences in strings/comments); the spec state gives the entity of every identifier token; references / documentHighlight / rename from every occurrence are compared with the token set of the entity",
+   technique="NameRes.tla universes with reference statements drawn from templates (adjacent occurrences 'n=n+1', occurrences in strings/comments, apostrophes inside double-quoted literals and quotes inside comments; access lists spelled in upper case); the spec state gives the entity of every identifier token; references / documentHighlight / rename from every occurrence are compared with the token set of the entity",
    text="For each entity: every same-spelled token bound to it is required from every invocation point, tokens bound to other entities and tokens in strings/comments are forbidden, rename edits must cover exactly the required ranges with the new text; alias uses through 'lx => x' are don't-care for references and forbidden for rename.",
    note="Trusted as C05. Rename is checked on ranges/text, not by re-indexing the renamed program.",
    design="4/C06"),
  "C12": dict(
    technique="NameRes.tla universes: at every reference site and for every non-empty prefix of the name, the prefix is typed on a fresh statement line (didChange) and completion labels are compared with the spec's accessible-name set",
    text="Required: every accessible variable name with the prefix; forbidden: names of the model that are inaccessible at that site or lack the prefix.",
-   note="Trusted as C05. Contexts CALL/USE/ONLY/TYPE(/% chains are not yet generated from the spec.",
+   note="Trusted as C05. USE / ONLY / CALL contexts come from the spec's ctx record (CALL also behind a logical IF and a ';'); the executable context is also typed as the right-hand side of an assignment to a name beginning with END / IMPORT; % chains on TypeRes.tla. TYPE( context and derived-type names in expressions are not generated.",
    design="4/C12"),
  "C13": dict(
-   technique="TLA+ spec Layout.tla (re-layout operations as actions that change only the layout; line-map laws model-checked) composed with FortranScopes.tla programs: TLC enumerates op sequences per program size, the harness applies them to rendered programs and compares the server's outline+diagnostics dump of the re-laid-out file with the original's, lines mapped through the spec's LineMap",
-   text="Valid and single-defect programs x every sequence of <=2 operations (exhaustive per program size, sampled per program) and simulated compositions of 3: blank/comment lines, & continuations with/without leading &, ; joins, LF/CRLF/CR, case, trailing blanks.",
+   technique="TLA+ spec Layout.tla (re-layout operations as actions that change only the layout; line-map laws model-checked) composed with FortranScopes.tla programs: TLC enumerates op sequences per program size, the harness applies them to rendered programs and compares the server's dump (outline, diagnostics, per-entity hover text incl. link targets) of the re-laid-out file with the original's, lines mapped through the spec's LineMap",
+   text="Valid and single-defect programs x every sequence of <=2 operations (exhaustive per program size, sampled per program) and simulated compositions of 3: blank/comment lines (also between the lines of a continued statement), & continuations with/without leading &, ; joins, trailing comments (also on the first line of a continued statement), LF/CRLF/CR, case, trailing blanks; sample sources are re-laid-out line-wise with blank/comment lines, EOL, case, ';' joins and trailing comments.",
    note="Trusted: TLC, layout applier, dump projection. A diagnostic of a statement spanning several physical lines may sit on any of them. Same-line ordering defects (';'-joined statements) and the free-form detection heuristic are recorded known findings.",
    design="4/C13"),
  "C14": dict(
    technique="Layout.tla ToFixed action: every program is rendered as its fixed-form twin (column-1 comment flags C c * ! d, column-6 continuation) and the server's dump for the .f file is compared with the free-form original through the spec's LineMap; FortranFile.fixed must equal the spec's form",
    text="Same programs and comparison as C13 with fixed-form layouts (blank/comment/continuation compositions of <=3 plus ToFixed); every free-form layout of C13 must be classified free.",
-   note="Trusted as C13. Not yet modelled: numeric statement labels / labelled DO termination.",
+   note="Trusted as C13. Labelled DO with its own label per loop; labels shared between loops or procedures are not modelled.",
    design="4/C14"),
  "C03": dict(
-   technique="inputs enumerated by TLC from FortranScopes.tla (all prefixes of valid programs; all sequences of the robust statement alphabet) and Preproc.tla (directive files with open conditionals), plus seeded mutations; each text indexed by a live server in killable workers; recorded add_scope/end_scope traces validated by TLC against FortranScopesTrace.tla",
+   technique="inputs enumerated by TLC from FortranScopes.tla (all prefixes of valid programs; all sequences of the robust statement alphabet) and Preproc.tla (directive files with open conditionals; macro-table files with object-/function-like definitions, redefinition after #undef, call forms, conditions on macros naming each other, headers including themselves), long runs of one character class in every statement position, plus seeded mutations; each text indexed by a live server in killable workers; recorded add_scope/end_scope traces validated by TLC against FortranScopesTrace.tla",
    text="Every text must be indexed without exception within the CPU bound, leave no 'parsing failed' message, answer documentSymbol/definition/hover/completion/diagnostics without internal error, and its scope push/pop trace must satisfy the stack discipline (LIFO, first line <= last line, nothing left open at end of file).",
    note="Trusted: TLC, renderer, the add_scope/end_scope wrapper installed from outside. Statement-level and one-character-mutation coverage only; arbitrary byte strings are not enumerated.",
    design="4/C03"),
  "C04": dict(
-   technique="TLA+ spec FortranScopes.tla (block grammar as guarded actions; well-nestedness invariants model-checked); every complete program TLC enumerates/simulates is rendered with seeded spacing and its documentSymbol / workspace/symbol answers are compared with the spec's closed-scope set",
+   technique="TLA+ spec FortranScopes.tla (block grammar as guarded actions; well-nestedness invariants model-checked); every complete program TLC enumerates/simulates is rendered with seeded spacing and its documentSymbol / workspace/symbol answers are compared with the spec's closed-scope set (variables are named after statement keywords and assigned at the start of statements; one program in five is tab-indented and sent as didOpen text; a catalogue module declares ~60 keyword-like names)",
    text="All complete valid programs of <=6 (quick) / <=8 (thorough) statements over units, procedures, CONTAINS nesting, types with components/bindings, interfaces and six block constructs, plus simulated programs of up to 30 statements: each required entity exactly once with admissible kind, container and first/last line; workspace/symbol equals the substring-filtered set of units and module members, sorted.",
    note="Trusted: TLC, renderer (validated with gfortran -fsyntax-only on a sample), admissible SymbolKind sets. Don't-care: entries the property does not mention.",
    design="4/C04"),
@@ -81,8 +81,8 @@ CHECKS = {
    design="4/C07"),
  "C08": dict(
    technique="TLA+ spec Preproc.tla: TLC checks the implementation-shaped two-stack conditional machine against reference C-preprocessor semantics in every reachable state (named deviation must yield a counterexample); TLC-enumerated and simulated directive files replayed into preprocess_file and a live server, compared with the spec state; clang -E validates the spec",
-   text="Exhaustive files of <=3 lines over the full directive alphabet, exhaustive conditional skeletons of 6 (quick) / 7 lines, and simulated files of up to 14 lines with nested expressions and hostile macro bodies: liveness of every code line, final macro table, expanded text of macro uses (incl. one level of macro-in-macro rescan) and indexed declarations are compared with the spec.",
-   note="Trusted: TLC, renderer, clang only as validator of the reference layer. Not covered: function-like macros, arithmetic in #if, redefinition without #undef, stringify/paste.",
+   text="Exhaustive files of <=3 lines over the full directive alphabet, exhaustive conditional skeletons of 6 (quick) / 7 lines, exhaustive macro-table files of 5 / 4 lines (define, undef, redefine with another kind, use bare / call / two calls, include) and simulated files of up to 14 lines with nested expressions and hostile macro bodies: liveness of every code line, final macro table, expanded text of macro uses (incl. one level of macro-in-macro rescan) and indexed declarations are compared with the spec.",
+   note="Trusted: TLC, renderer, clang only as validator of the reference layer. Function-like macros have one parameter and literal arguments (once or twice on a line); #include names four fixed headers. Not covered: arithmetic in #if, redefinition without #undef, stringify/paste, nested macro calls.",
    design="4/C08"),
  "C01": dict(
    technique="TLA+ spec LspServer.tla model-checked (3 named deviations must yield counterexamples); TLC-enumerated/simulated message sessions rendered and run through the real LangServer.run loop; recorded consume/write traces validated by TLC against LspServerTrace.tla",
@@ -91,17 +91,17 @@ CHECKS = {
    design="4/C01"),
  "C09": dict(
    technique="sweep of every (line, character, method) through LangServer.handle; each exchange becomes a trace validated by TLC against LspServerTrace.tla in strict mode (result required; RangeOk on every returned range with recorded line geometry)",
-   text="All positions (incl. one past each line end and past the last line) of sample sources, seeded mutations of them and a generated file naming every bundled intrinsic/keyword, x 9 positional methods; diagnostics ranges included. TLC decides acceptance of each distinct (method, tag, ranges+geometry) outcome.",
+   text="All positions (incl. one past each line end and past the last line) of sample sources, seeded mutations of them and generated files (every bundled intrinsic/keyword, every member of every bundled intrinsic module, preprocessed text with long and short macro expansions, documentation with braces, INCLUDE with diagnosable declarations in both files, an unterminated INTERFACE, declarations outside any unit) x 9 positional methods, references with includeDeclaration true / false / absent; diagnostics ranges included. TLC decides acceptance of each distinct (method, tag, ranges+geometry) outcome.",
    note="Trusted: TLC, range extractor (walks Location/TextEdit/Diagnostic shapes), geometry read from the server's own buffer. Outcomes are de-duplicated before validation; in-process handle() rather than stdio.",
    design="4/C09"),
  "C16": dict(
-   technique="TLA+ spec Framing.tla model-checked (reference reader; two named deviations must yield counterexamples); TLC-enumerated (messages, header order, chunking) behaviours replayed into the real JSONRPC2Connection behind io.BufferedReader; server output frames validated by TLC against FramingTrace.tla; Uri.tla path shapes replayed into path_to_uri/path_from_uri against an independent RFC 3986 codec",
+   technique="TLA+ spec Framing.tla model-checked (reference reader; two named deviations must yield counterexamples); TLC-enumerated (messages, header order, chunking) behaviours replayed into the real JSONRPC2Connection behind io.BufferedReader; server output frames validated by TLC against FramingTrace.tla; Uri.tla path shapes (14 character classes incl. decomposed and compatibility characters, upper case, a byte that is not valid UTF-8) replayed into path_to_uri/path_from_uri against an independent RFC 3986 codec",
    text="Exhaustive within the bound: <=2 messages x UTF-8 width classes 1..4 x 3 header orders x all chunkings with <=2/3 cuts (raw UTF-8 and \\u-escaped renderings), plus unit-wise delivery of a 9-message stream; outbound frames of sessions with non-ASCII payloads and paths must have Content-Length = byte length of the JSON value that follows.",
    note="Trusted: TLC, renderer width-class->bytes, independent frame reader and percent codec (written from the RFCs, not from jsonrpc.py).",
    design="4/C16"),
  "C02": dict(
    technique="TLA+ spec DocText.tla: TLC model checking of edit laws + exhaustive spec->code replay of TLC-enumerated (document, edit) transitions + TLC trace validation (DocTextTrace.tla) of recorded server sessions",
-   text="TLC proves the reference edit semantics self-consistent (structured = character-level, line-count law, identity, whole-range = full) on a small bound; every transition instance TLC enumerates (3.4e5 quick) is replayed into FortranFile.apply_change and compared line for line; simulated multi-change sessions go through a live server; random-editor traces from the live server are accepted/rejected by TLC.",
+   text="TLC proves the reference edit semantics self-consistent (structured = character-level, line-count law, identity, whole-range = full) on a small bound; every transition instance TLC enumerates (3.4e5 quick) is replayed into FortranFile.apply_change and compared line for line; simulated multi-change sessions go through a live server (incremental: several ranged changes per notification; full synchronisation: several whole-document changes per notification); random-editor traces from the live server are accepted/rejected by TLC.",
    note="Trusted: TLC, the 60-line TLA+ value reader, the renderer letters->text. Alphabet {a,b} x {LF,CRLF,CR}; bounded document and insert sizes; lone-CR fusing corner is a recorded known finding.",
    design="4/C02"),
 }
